@@ -24,7 +24,9 @@ import (
 	"fmt"
 	"io"
 	"io/ioutil"
+	"net"
 	"net/http"
+	"net/url"
 	"os"
 	"runtime"
 	"sort"
@@ -32,6 +34,7 @@ import (
 	"strings"
 	"sync"
 	"sync/atomic"
+	"syscall"
 	"testing"
 	"time"
 
@@ -39,7 +42,8 @@ import (
 )
 
 type verifC11Out struct {
-	kind    byte // 'e' conn error, 'k' honest store, 'f' fixed
+	kind    byte   // 'e' conn error, 'k' honest store, 'f' fixed
+	ekind   string // which connection error (see verifC11ConnErr)
 	code    int
 	hdr     *string
 	body    []byte
@@ -47,8 +51,8 @@ type verifC11Out struct {
 }
 
 func verifC11ParseOut(t string) (o verifC11Out, ok bool) {
-	if t == "e" {
-		return verifC11Out{kind: 'e'}, true
+	if t == "e" || t == "er" || t == "es" || t == "et" || t == "eo" || t == "eh" {
+		return verifC11Out{kind: 'e', ekind: t}, true
 	}
 	if t == "k" {
 		return verifC11Out{kind: 'k'}, true
@@ -111,6 +115,38 @@ func (b *verifC11FailBody) Read(p []byte) (int, error) {
 	return n, err
 }
 func (b *verifC11FailBody) Close() error { return nil }
+
+type verifC11Timeout struct{}
+
+func (verifC11Timeout) Error() string   { return "verif: i/o timeout" }
+func (verifC11Timeout) Timeout() bool   { return true }
+func (verifC11Timeout) Temporary() bool { return true }
+
+// verifC11ConnErr builds the error HTTPClient.Do returns for a failed exchange, shaped like the
+// ones net/http produces: every kind is a "connection error" in the property's sense.
+//
+//	e  an opaque error        er connection refused (url.Error > net.OpError > os.SyscallError > ECONNREFUSED)
+//	es connection reset       et timeout (net.Error with Timeout())
+//	eo unexpected EOF         eh no route to host
+func verifC11ConnErr(kind string, req *http.Request) error {
+	wrap := func(err error) error { return &url.Error{Op: "Put", URL: req.URL.String(), Err: err} }
+	sys := func(op, call string, errno syscall.Errno) error {
+		return wrap(&net.OpError{Op: op, Net: "tcp", Err: os.NewSyscallError(call, errno)})
+	}
+	switch kind {
+	case "er":
+		return sys("dial", "connect", syscall.ECONNREFUSED)
+	case "es":
+		return sys("read", "read", syscall.ECONNRESET)
+	case "eh":
+		return sys("dial", "connect", syscall.EHOSTUNREACH)
+	case "et":
+		return wrap(&net.OpError{Op: "dial", Net: "tcp", Err: verifC11Timeout{}})
+	case "eo":
+		return wrap(io.ErrUnexpectedEOF)
+	}
+	return errors.New("verif: connection error")
+}
 
 func verifC11Response(req *http.Request, o verifC11Out) *http.Response {
 	h := http.Header{}
@@ -184,10 +220,11 @@ func (a *verifC11API) RoundTrip(req *http.Request) (*http.Response, error) {
 	if len(a.asked) < 4 {
 		a.asked = append(a.asked, req.Method+":"+req.URL.Path+":"+auth)
 	}
+	js := a.js
 	a.mu.Unlock()
 	code, body := 404, []byte(`{"errors":["not found"]}`)
 	if req.Method == "GET" && req.URL.Path == "/arvados/v1/keep_services/accessible" {
-		code, body = 200, a.js
+		code, body = 200, js
 	}
 	return &http.Response{StatusCode: code, Status: fmt.Sprintf("%d x", code), Header: http.Header{"Content-Type": []string{"application/json"}},
 		Body: ioutil.NopCloser(bytes.NewReader(body)), Request: req}, nil
@@ -318,7 +355,7 @@ func (c *verifC11Ctl) Do(req *http.Request) (*http.Response, error) {
 	}
 	<-fl.release
 	if o.kind == 'e' {
-		return nil, errors.New("verif: connection refused")
+		return nil, verifC11ConnErr(o.ekind, req)
 	}
 	return verifC11Response(req, o), nil
 }
@@ -485,31 +522,34 @@ func verifC11Put(f []string) string {
 	return out
 }
 
+// verifC11Shared is the long-lived client of a `seq` case (and its stub API server, if it found
+// its services through discovery).
+type verifC11Shared struct {
+	kc  *KeepClient
+	api *verifC11API
+}
+
 // verifC11PutOnce runs one put. With share != nil the client is kept in *share and reused by the
 // next put of a `seq` case (same service list), so that anything the client remembers between
 // calls takes effect.
 // verifC11SeqCase runs `seq <k> <7 put fields> x k`: k puts, one after the other, on ONE KeepClient
-// (the puts list the same services; scripts, want, retries, data and picks are per put, and each
-// put's script is indexed by the requests of that put). Results are joined with " / ".
+// (the puts list the same service uuids; type and read-only flag of a service, scripts, want,
+// retries, data and picks are per put: the client is given the service list again before every
+// later put; each put's script is indexed by the requests of that put). Results are joined with " / ".
 func verifC11SeqCase(f []string) string {
 	k, err := strconv.Atoi(f[1])
 	if err != nil || k < 1 || len(f) != 2+7*k {
 		return "bad-op"
 	}
-	svcKey := func(field string) string { // uuid:type:writable of every service, scripts dropped
+	svcKey := func(field string) string { // the uuids of the services (type and read-only flag may change)
 		var ks []string
 		for _, s := range strings.Split(field, ";") {
-			p := strings.Split(s, ":")
-			if len(p) == 4 {
-				ks = append(ks, strings.Join(p[:3], ":"))
-			} else {
-				ks = append(ks, s)
-			}
+			ks = append(ks, strings.SplitN(s, ":", 2)[0])
 		}
 		return strings.Join(ks, ";")
 	}
 	run := func(limit time.Duration) string {
-		var kc *KeepClient
+		var shared verifC11Shared
 		var outs []string
 		for i := 0; i < k; i++ {
 			pf := append([]string{"put"}, f[2+7*i:2+7*i+7]...)
@@ -519,7 +559,7 @@ func verifC11SeqCase(f []string) string {
 			if strings.HasPrefix(pf[1], "puthr") {
 				return "bad-op" // seq cases use the buffer entry points only
 			}
-			out := verifC11PutOnce(pf, limit, &kc)
+			out := verifC11PutOnce(pf, limit, &shared)
 			if out == "bad-op" || strings.HasPrefix(out, "hang") {
 				return out
 			}
@@ -541,7 +581,7 @@ func verifC11SeqCase(f []string) string {
 	return out
 }
 
-func verifC11PutOnce(f []string, limit time.Duration, share **KeepClient) string {
+func verifC11PutOnce(f []string, limit time.Duration, share *verifC11Shared) string {
 	entry := f[1]
 	want, err1 := strconv.Atoi(f[2])
 	retries, err2 := strconv.Atoi(f[3])
@@ -604,9 +644,24 @@ func verifC11PutOnce(f []string, limit time.Duration, share **KeepClient) string
 	}
 
 	var kc *KeepClient
-	if share != nil && *share != nil {
-		kc = *share
+	if share != nil && share.kc != nil {
+		// a later put of a sequence: the same client receives the (possibly changed) service list
+		// again, the way a long-lived client does: a second LoadKeepServicesFromJSON, or a changed
+		// answer of the API server picked up after RefreshServiceDiscovery
+		kc = share.kc
 		kc.Want_replicas, kc.Retries, kc.HTTPClient, kc.RequestID = want, retries, ctl, ctl.reqid
+		if share.api != nil {
+			js, err := list.json()
+			if err != nil {
+				return "load-error"
+			}
+			share.api.mu.Lock()
+			share.api.js = js
+			share.api.mu.Unlock()
+			kc.RefreshServiceDiscovery()
+		} else if err := list.load(kc); err != nil {
+			return "load-error"
+		}
 	} else {
 		kc = &KeepClient{
 			Arvados:       &arvadosclient.ArvadosClient{ApiToken: "tok"},
@@ -616,15 +671,17 @@ func verifC11PutOnce(f []string, limit time.Duration, share **KeepClient) string
 			RequestID:     ctl.reqid,
 		}
 		viaAPI := len(f[6])%16 == 3 // a deterministic 1/16 of the cases goes through service discovery
+		var api *verifC11API
 		if viaAPI {
-			if _, err := list.discover(kc); err != nil {
+			var err error
+			if api, err = list.discover(kc); err != nil {
 				return "load-error"
 			}
 		} else if err := list.load(kc); err != nil {
 			return "load-error"
 		}
 		if share != nil {
-			*share = kc
+			share.kc, share.api = kc, api
 		}
 	}
 
@@ -795,7 +852,7 @@ func (c *verifC11OneShot) Do(req *http.Request) (*http.Response, error) {
 		req.Body.Close()
 	}
 	if c.o.kind == 'e' {
-		return nil, errors.New("verif: connection refused")
+		return nil, verifC11ConnErr(c.o.ekind, req)
 	}
 	return verifC11Response(req, c.o), nil
 }
@@ -837,6 +894,78 @@ func verifC11ShowMap(m map[string]string) string {
 		out = append(out, k+"="+m[k])
 	}
 	return verifC11Join(out)
+}
+
+func verifC11ParseList(field string) (verifC11SvcList, bool) {
+	var list verifC11SvcList
+	if field == "-" {
+		return list, true
+	}
+	for _, s := range strings.Split(field, ";") {
+		p := strings.Split(s, ",")
+		if len(p) != 6 {
+			return nil, false
+		}
+		port, err := strconv.Atoi(p[2])
+		if err != nil || (p[3] != "0" && p[3] != "1") || (p[5] != "0" && p[5] != "1") {
+			return nil, false
+		}
+		typ := p[4]
+		if typ == "-" {
+			typ = ""
+		}
+		list = append(list, verifC11Item{p[0], p[1], port, p[3] == "1", typ, p[5] == "1"})
+	}
+	return list, true
+}
+
+// verifC11Reload: `reload <json|api> <k> <list 1> ... <list k>`: ONE client is given k service
+// lists one after the other (a second LoadKeepServicesFromJSON, or a changed answer of the API
+// server after RefreshServiceDiscovery); prints what it holds at the end.
+func verifC11Reload(f []string) string {
+	k, err := strconv.Atoi(f[2])
+	if err != nil || k < 1 || len(f) != 3+k || (f[1] != "json" && f[1] != "api") {
+		return "bad-op"
+	}
+	kc := &KeepClient{Arvados: &arvadosclient.ArvadosClient{ApiToken: "tok"}}
+	var api *verifC11API
+	for i := 0; i < k; i++ {
+		list, ok := verifC11ParseList(f[3+i])
+		if !ok {
+			return "bad-op"
+		}
+		switch {
+		case f[1] == "json":
+			if err := list.load(kc); err != nil {
+				return "load-error"
+			}
+		case i == 0:
+			if api, err = list.discover(kc); err != nil {
+				return "load-error"
+			}
+		default:
+			js, err := list.json()
+			if err != nil {
+				return "load-error"
+			}
+			api.mu.Lock()
+			api.js = js
+			api.mu.Unlock()
+			kc.RefreshServiceDiscovery()
+			// a refreshed answer is loaded by the next read/write operation; make that happen now, so
+			// that the client really sees every list of the case
+			if err := kc.discoverServices(); err != nil {
+				return "load-error"
+			}
+		}
+	}
+	// the roots first: with discovery the refreshed list is loaded by the next discoverServices()
+	l, w, g := verifC11ShowMap(kc.LocalRoots()), verifC11ShowMap(kc.WritableLocalRoots()), verifC11ShowMap(kc.GatewayRoots())
+	nd := 0
+	if kc.foundNonDiskSvc {
+		nd = 1
+	}
+	return fmt.Sprintf("L=%s W=%s G=%s rps=%d nd=%d", l, w, g, kc.replicasPerService, nd)
 }
 
 func verifC11Load(f []string) string {
@@ -940,6 +1069,8 @@ func verifC11Case(line string) (out string) {
 		return verifC11SeqCase(f)
 	case f[0] == "upl" && len(f) == 2:
 		return verifC11Upl(f)
+	case f[0] == "reload" && len(f) >= 4:
+		return verifC11Reload(f)
 	case f[0] == "disc" && len(f) == 3:
 		return verifC11Disc(f)
 	case f[0] == "load" && len(f) == 3:
